@@ -187,6 +187,26 @@ func run(t *testing.T, tape *simrt.Tape) *hx.Outcome {
 				return nil, errno
 			}
 			var eo fuse.EntryOut
+			// now and then the client first abandons a lookup of the same node (FUSE interrupt: the request's
+			// context is cancelled at once or a little later); what that lookup returns is its own business,
+			// the lookups that follow must not suffer from it (own tape stream: older tapes replay unchanged)
+			if as := "abandon:" + t.Label; s.Tape.Draw(as, 5) == 1 {
+				cctx, cancel := context.WithCancel(ctx)
+				var tm *time.Timer
+				if d := s.Tape.Draw(as, 4); d == 0 {
+					cancel()
+				} else {
+					tm = time.AfterFunc(time.Duration(d*d)*5*time.Millisecond, cancel)
+				}
+				var eo2 fuse.EntryOut
+				_, e2 := ln.(fusefs.NodeLookuper).Lookup(cctx, kind, &eo2)
+				if tm != nil {
+					tm.Stop()
+				}
+				cancel()
+				s.Stat("lookup.abandoned", 1)
+				s.Event("%s abandoned lookup img%d layer%d %s -> %v", t.Label, ii, li, kind, e2)
+			}
 			lookupInv[t.Label] = s.Seq()
 			in, errno := ln.(fusefs.NodeLookuper).Lookup(ctx, kind, &eo)
 			lookups++
